@@ -1206,4 +1206,40 @@ example : (do
     pure (addrEq a b && addrEq b c && addrEq c d && hashKey a == hashKey d) : Except Err Bool)
     = .ok true := by decide +kernel
 
+/-! ## addresses with routes (wave 4): why the stack must hand up route-free addresses
+
+With default settings `_tuple()` ignores `addrRoute` but `__eq__` compares the
+routes when both sides have one.  On route-free addresses `__eq__` is the
+equivalence proved above; as soon as two sightings of one station carry
+different routes it is no longer transitive.  The `stack` stream of the harness
+checks the hypothesis (`route = none`) on every address the network layer and
+the B/IP layer hand up. -/
+
+/-- on route-free addresses `__eq__` is `addrEq`, hence an equivalence that agrees with the hash -/
+theorem eqR_noroute (a b : RAddr) (ha : a.route = none ∨ b.route = none) :
+    addrEqR a b = addrEq a.base b.base := by
+  unfold addrEqR
+  rcases ha with h | h <;> rw [h] <;> cases a.route <;> cases b.route <;> simp_all
+
+theorem eqR_trans_noroute (a b c : RAddr) (hb : a.route = none ∨ c.route = none)
+    (h1 : addrEqR a b = true) (h2 : addrEqR b c = true) (hab : a.route = none ∨ b.route = none)
+    (hbc : b.route = none ∨ c.route = none) : addrEqR a c = true := by
+  rw [eqR_noroute a b hab] at h1
+  rw [eqR_noroute b c hbc] at h2
+  rw [eqR_noroute a c hb]
+  exact eq_trans _ _ _ h1 h2
+
+/-- equal (route-free or not) ⇒ same hashed key, with `route_aware` off -/
+theorem eqR_hash (a b : RAddr) (h : addrEqR a b = true) : hashKeyR a = hashKeyR b := by
+  unfold addrEqR at h
+  simp only [Bool.and_eq_true] at h
+  exact eq_hash _ _ h.1
+
+/-- the witness of seeded change 11: station 5:12 heard via router 1 and via
+    router 3 — each equals the typed `5:12`, they do not equal each other -/
+theorem eqR_not_transitive :
+    ∃ a b c : RAddr, addrEqR a b = true ∧ addrEqR b c = true ∧ addrEqR a c = false :=
+  ⟨⟨mkRemoteStation 5 [12], some (mkLocalStation [1])⟩, ⟨mkRemoteStation 5 [12], none⟩,
+   ⟨mkRemoteStation 5 [12], some (mkLocalStation [3])⟩, by decide, by decide, by decide⟩
+
 end BacVerif.C18
